@@ -280,7 +280,7 @@ func copySourceItem(
 		value = vslice[0]
 	}
 
-	if string(item.Destination[0]) != "." {
+	if !strings.HasPrefix(item.Destination, ".") {
 		return &JSONPathFormatError{Path: item.Destination}
 	}
 	trimmedDestination := strings.TrimPrefix(item.Destination, ".")
